@@ -583,10 +583,35 @@ pub fn build_node(it: &J) -> P {
         "adj" if it.get("head").map_or(false, |h| h["kind"] == "cmd") => {
             // adjacent subcommand: named members and then positional members form its own parser
             let members = arr(it, "members");
-            let mut fields: Vec<P> = members.iter().filter(|m| m["kind"] != "pos").map(build_node).collect();
-            fields.extend(members.iter().filter(|m| m["kind"] == "pos").map(build_node));
+            let nested = s(it, "nested_cmd");
+            let mut fields: Vec<P> = if nested.is_empty() {
+                let mut f: Vec<P> = members.iter().filter(|m| m["kind"] != "pos").map(build_node).collect();
+                f.extend(members.iter().filter(|m| m["kind"] == "pos").map(build_node));
+                f
+            } else {
+                // the first member stands for the name of a REGULAR subcommand nested in this adjacent one, the other
+                // members are that subcommand's own items: `remote add NAME` (the value is flattened to the same tuple)
+                let inner: Vec<P> = members[1..].iter().map(build_node).collect();
+                let sub = con(inner, false).to_options().command(leak(&dstr(nested)));
+                vec![sub
+                    .map(|v| match v {
+                        Val::Tuple(mut xs) => {
+                            xs.insert(0, Val::Unit);
+                            Val::Tuple(xs)
+                        }
+                        other => other,
+                    })
+                    .boxed()]
+            };
             let names = arr(&it["head"], "names");
-            let op = con(fields, false).to_options();
+            let inner_p: P = if nested.is_empty() {
+                con(fields, false)
+            } else {
+                // (one field: its flattened tuple is the block's value)
+                let f = fields.pop().unwrap();
+                construct!(f).boxed()
+            };
+            let op = inner_p.to_options();
             let op = if b(&it["head"], "ftu") { op.fallback_to_usage() } else { op };
             let mut c = op.command(leak(&dstr(names[0].as_str().unwrap())));
             for a in &names[1..] {
